@@ -15,7 +15,23 @@ import (
 func setup() (Keeper, MsgServer, sdk.Context) {
 	k := verifSym[Keeper]("k")
 	ctx := verifSym[sdk.Context]("ctx")
+	assumeInv(ctx, k)
 	return k, NewMsgServerImpl(k), ctx
+}
+
+// assumeInv: the part of the reachable-state invariant every harness relies on — module parameters are present
+// (InitGenesis writes them and nothing removes them).
+func assumeInv(ctx sdk.Context, k Keeper) {
+	_, err := k.Params.Get(ctx)
+	verifAssume(err == nil)
+}
+
+// assumeBridgeInv: reachable-state facts about an existing bridge b (Appendix A, H1/H3): ids are handed out by
+// the NextBridgeId counter, so an existing bridge has 1 <= b < next id; both are re-established by the
+// C10 freshness harness.
+func assumeBridgeInv(ctx sdk.Context, k Keeper, b uint64) {
+	next, err := k.GetNextBridgeId(ctx)
+	verifAssume(err == nil && b >= 1 && b < next)
 }
 
 // runMsg executes one message the way baseapp does: on a cache of the state, committed only on success;
